@@ -33,7 +33,7 @@ Print Assumptions C04_views_agree.
    seq_step's rejected call takes no time). *)
 Theorem C04_service_sequential_call :
   forall (cf : cfg) (s : st) (i : nat) (o : outcome) (l : Z),
-    cs s i = Created -> gate s i = None -> o <> OPanic -> 0 <= l ->
+    cs s i = Created -> gate s i = None -> o <> OPanic -> o <> OCPanic -> 0 <= l ->
     let s1 := step_st cf s (Poll i) in let s2 := step_st cf s1 (Advance l) in
     let s3 := step_st cf s2 (Complete i o) in let s4 := step_st cf s3 (Poll i) in
     let '(p', inv) := seq_step cf (now s, circ s) (HCall (fail_of o) l) in
@@ -46,7 +46,7 @@ Print Assumptions C04_service_sequential_call.
 (* admitted call: the four service steps are exactly seq_step (circuit, clock, invoked) *)
 Theorem C04_service_sequential_call_admitted :
   forall (cf : cfg) (s : st) (i : nat) (o : outcome) (l : Z),
-    cs s i = Created -> gate s i = None -> o <> OPanic ->
+    cs s i = Created -> gate s i = None -> o <> OPanic -> o <> OCPanic ->
     snd (try_acquire (now s) cf (circ s)) = true ->
     let s1 := step_st cf s (Poll i) in let s2 := step_st cf s1 (Advance l) in
     let s3 := step_st cf s2 (Complete i o) in let s4 := step_st cf s3 (Poll i) in
@@ -73,7 +73,7 @@ Print Assumptions C04_service_sequential_call_rejected.
    documented machine prescribes.  oc chooses the inner result realising a classifier verdict. *)
 Theorem C04_service_history_refines_spec :
   forall (cf : cfg) (oc : bool -> outcome),
-    (forall f, fail_of (oc f) = f /\ oc f <> OPanic) ->
+    (forall f, fail_of (oc f) = f /\ oc f <> OPanic /\ oc f <> OCPanic) ->
     forall h : list hev,
       wf cf = true ->
       service_obs cf oc init 0 h = run_spec cf (0, SClosed []) h.
@@ -86,3 +86,44 @@ Theorem C04_service_history_is_a_run :
     fold_left (step_st cf) (script_of_history cf oc s i h) s = final_state cf oc s i h.
 Proof. exact script_runs. Qed.
 Print Assumptions C04_service_history_is_a_run.
+
+(* The count-based counters describe the ring buffer exactly in EVERY reachable state of the
+   service model (concurrent callers, outcomes recorded while open or half-open, cancellations,
+   panics), so none of them is ever negative: the code's `usize` decrements cannot underflow. *)
+Theorem C04_counts_consistent :
+  forall (cf : cfg) (evs : list ev),
+    Forall (fun s => counts_ok (circ s) /\ 0 <= fc (circ s) /\ 0 <= sc (circ s) /\
+                     0 <= tc (circ s) /\ 0 <= slowc (circ s))
+           (states (step_st cf) init evs).
+Proof. exact counts_consistent. Qed.
+Print Assumptions C04_counts_consistent.
+
+(* "the rate reaches its threshold", independently of the arithmetic shared by model and spec:
+   rate_ge is the comparison of the rationals num/den <= cnt/total whenever total > 0 ... *)
+Theorem C04_rate_is_rational_comparison :
+  forall cnt total num den : Z,
+    0 < total -> 0 < den ->
+    (rate_ge cnt total num den = true <->
+     QArith_base.Qle (QArith_base.Qmake num (Z.to_pos den)) (QArith_base.Qmake cnt (Z.to_pos total))).
+Proof. exact rate_ge_rational. Qed.
+Print Assumptions C04_rate_is_rational_comparison.
+
+(* ... and the documented machine only ever judges a non-empty window (it contains the call just
+   recorded): a closed breaker opens on a call exactly when enough calls are recorded and the
+   failure rate, or the enabled slow-call rate, over the window is >= its threshold as rationals. *)
+Theorem C04_trip_condition_meaning :
+  forall (cf : cfg) (t : Z) (hist : list (Z * bool * bool)) (f sl : bool),
+    wf cf = true ->
+    let hist' := hist ++ [(t, f, sl)] in
+    let w := window cf t hist' in
+    let n := Z.of_nat (length w) in
+    0 < n /\
+    (trips cf t hist' = true <->
+     enough cf t hist' = true /\
+     (QArith_base.Qle (QArith_base.Qmake (fnum cf) (Z.to_pos (fden cf)))
+                      (QArith_base.Qmake (count_fail w) (Z.to_pos n)) \/
+      (slow_on cf = true /\
+       QArith_base.Qle (QArith_base.Qmake (snum cf) (Z.to_pos (sden cf)))
+                       (QArith_base.Qmake (count_slow w) (Z.to_pos n))))).
+Proof. exact trips_meaning. Qed.
+Print Assumptions C04_trip_condition_meaning.
